@@ -237,3 +237,547 @@ def translate_regions(path, rel):
     out.append(py2coq.translate_inline_test(path, '_generate_count_dict', ['int(cut_pos / bin_size)'], {}, 'g_region_bin',
                                             '(cut_pos bin_size : Z)', repo_rel=rel, which='assign'))
     return out
+
+
+# ----------------------------------------------------------------------------- K
+SAMPLES = [None, 'c1', 'c2', 'c3', 'bulk']
+SAMPLE_ID = {None: 0, 'bulk': 0, 'c1': 1, 'c2': 2, 'c3': 3}
+DA_ID = {None: 1, 'a': 2, 'b': 3}
+MP_ID = {None: 0, 'unique': 1, 'multi': 2}
+
+
+def span_of(r):
+    return r['span'] if (r.get('span') and r['span'] > r['len'] and r['len'] >= 2) else r['len']
+
+
+def py_passes(r, run):
+    """the filter as the property statement words it: read-1, not rejected (qcfail), not duplicate (when
+    deduplicating), not marked non-uniquely mappable (unless ignored), mapping quality >= threshold"""
+    f = r['flag']
+    return bool(f & 64) and not (f & 512) and not (run['dedup'] and (f & 1024)) and \
+        (bool(run['ignore_mp']) or r.get('mp') in (None, 'unique')) and \
+        (run['min_mq'] is None or r['mq'] >= run['min_mq'])
+
+
+def py_site(r):
+    return r['ds'] if r.get('ds') is not None else r['pos']
+
+
+def py_regular(r, run, length):
+    if not py_passes(r, run):
+        return True
+    s, lo, hi = py_site(r), r['pos'], r['pos'] + span_of(r)
+    return 0 <= s < length and lo <= s + run['mfs'] and s - run['mfs'] < hi and 0 <= lo < length and lo < hi
+
+
+def py_pre(lib, run):
+    return run['b'] > 0 and run['k'] > 0 and run['mfs'] >= 0 and \
+        all(py_regular(r, run, lib['contigs'][r['c']][1]) for r in lib['reads'])
+
+
+def py_spec(lib, run):
+    """declarative matrix: {(key, contig, bin_start, bin_end, sample): n} - python transcription of [decl]"""
+    out = {}
+    b = run['b']
+    for r in lib['reads']:
+        if not py_passes(r, run):
+            continue
+        s = py_site(r)
+        length = lib['contigs'][r['c']][1]
+        cell = (DA_ID[r.get('da')] if run['key_tags'] else 0, r['c'] + 1, b * (s // b), min(b * (s // b + 1), length),
+                SAMPLE_ID[r.get('sm')])
+        out[cell] = out.get(cell, 0) + 1
+    return out
+
+
+def canon_cells(lib, run, cells):
+    """implementation cells -> {(key id, contig id, bs, be, sample id): n}; None when a name is unknown"""
+    names = {n: i + 1 for i, (n, _) in enumerate(lib['contigs'])}
+    out = {}
+    for key, contig, bs, be, s, n in cells:
+        kid = 0 if key is None else (DA_ID.get(key[0], -1) if len(key) == 1 else -1)
+        cell = (kid, names.get(contig, -1), bs, be, SAMPLE_ID.get(s, -1))
+        if cell in out:
+            return None
+        out[cell] = n
+    return out
+
+
+def enc_read(r, run):
+    return [r['pos'], r['pos'] + span_of(r), [] if r.get('ds') is None else [r['ds']],
+            1 if r['flag'] & 64 else 0, 1 if r['flag'] & 512 else 0, 1 if r['flag'] & 1024 else 0,
+            MP_ID[r.get('mp')], r['mq'], SAMPLE_ID[r.get('sm')], DA_ID[r.get('da')] if run['key_tags'] else 0]
+
+
+def enc_input(lib, run, njobs):
+    cfg = [run['b'], run['k'], run['mfs'], [] if run['min_mq'] is None else [run['min_mq']],
+           1 if run['dedup'] else 0, 1 if run['ignore_mp'] else 0]
+    genome = []
+    for ci, (name, length) in enumerate(lib['contigs']):
+        rs = sorted(((r['pos'], i) for i, r in enumerate(lib['reads']) if r['c'] == ci))
+        genome.append([ci + 1, length, [enc_read(lib['reads'][i], run) for _, i in rs]])
+    sched = run['sched'] if run.get('sched') is not None else list(range(njobs))
+    return [cfg, genome, sched]
+
+
+class Prop(fw.PropBase):
+    ID = 'C12'
+    PROPS = 'Props/C12.v'
+    TRUSTED = [
+        'modelled not verified: pysam/htslib AlignmentFile.fetch(contig, start, stop) returns exactly the records whose '
+        'aligned span overlaps [start, stop) (model: r_lo < stop and start < r_hi), in file order; tag / flag accessors; '
+        'multiprocessing.Pool.imap_unordered yields every job result exactly once in SOME order (the theorems quantify over '
+        'all permutations); get_contig_sizes returns the @SQ names and lengths of the header (names distinct)',
+        'hand-written (tied by K, not by T): the loop of count_fragments_binned around the generated expressions, the nested '
+        'dict accumulation, the site extraction int(DS) with reference_start fallback, the SM fallback "bulk", the update-merge '
+        'of obtain_counts, Python range(lo, hi, step)',
+        'py2coq idiom int(a / b) -> Z.quot: assumes the IEEE quotient of two integers below 2^52 truncates to the exact quotient',
+        'custom AST matchers in tools/c12.py for the nested generator of generate_jobs and the rejection chain of read_counts '
+        '(fail closed)',
+    ]
+    ASSUMPTIONS = [
+        'H1 (visible in the theorems): every record that passes the filter has 0 <= site < contig length; a negative site is '
+        'never counted, a site >= contig length is counted or not depending on bins_per_job (C12_site_beyond_contig_refuted)',
+        'H2 (visible): the site of every passing record is within max_fragment_size of its aligned span; otherwise the owning '
+        'job does not fetch the record and the result depends on bins_per_job (C12_far_site_refuted)',
+        'bin_size > 0, bins_per_job > 0, max_fragment_size >= 0; records are mapped (0 <= reference_start < contig length, '
+        'reference_start < reference_end); one alignment file; alt_spans=None; head=None; skip_contigs=None; kwargs is a dict '
+        '(the default kwargs=None of generate_commands makes count_fragments_binned raise AttributeError)',
+    ]
+
+    def regen(self):
+        return regen_bincount()
+
+    # ---------------------------------------------------------------- generators
+    def gen_lib(self, wild):
+        rng = self.rng
+        b = rng.choice([1, 2, 3, 5, 10, 10, 30, 100])
+        ncont = rng.choice([1, 2, 2, 3])
+        lens = [rng.choice([b * 7, b * 7 + rng.randint(1, max(1, b - 1)), 95, 40, b * 12, b, max(1, b - 1), b + 1, 1,
+                            rng.randint(1, 400)]) for _ in range(ncont)]
+        contigs = [['chr%d' % (i + 1), l] for i, l in enumerate(lens)]
+        dmax = rng.choice([0, 0, 3, 25, 200])
+        keyed = rng.random() < 0.4
+        K = rng.choice([2, 3, 4])
+        reads = []
+        for _ in range(rng.randint(4, 45 if self.tier == 'quick' else 90)):
+            c = rng.randrange(ncont)
+            L = lens[c]
+            rl = rng.randint(1, 20)
+            pos = rng.randint(0, L - 1)
+            rl = min(rl, L - pos)
+            span = rl
+            if rl >= 2 and rng.random() < 0.2:
+                span = min(L - pos, rl + rng.randint(1, 150))
+            W = b * rng.randint(1, K)
+            m = rng.randint(0, max(0, L // W))
+            lo, hi = pos, pos + (span if span > rl else rl)
+            if wild and rng.random() < 0.5:
+                ds = rng.choice([-1, -rng.randint(1, 50), L, L + 1, L + rng.randint(1, 3 * W + 3), rng.randint(-5, L + 5),
+                                 m * W, m * W - 1])
+            else:
+                cand = [m * W, m * W - 1, m * W + 1, lo, hi - 1, hi, lo - dmax, hi - 1 + dmax, rng.randint(lo - dmax, hi - 1 + dmax),
+                        (pos // b) * b, (pos // b) * b + b - 1, L - 1, 0]
+                cand = [x for x in cand if 0 <= x < L and lo - dmax <= x <= hi - 1 + dmax]
+                ds = rng.choice(cand) if cand else pos
+                if rng.random() < 0.12:
+                    ds = None
+            flag = rng.choice([65, 65, 65, 65, 64, 129, 0, 65 | 16, 65 | 256, 65 | 2048])
+            if rng.random() < 0.12:
+                flag |= 1024
+            if rng.random() < 0.08:
+                flag |= 512
+            reads.append({'c': c, 'pos': pos, 'len': rl, 'span': span, 'flag': flag, 'ds': ds,
+                          'mq': rng.choice([0, 20, 29, 30, 49, 50, 60, 60, 60]), 'sm': rng.choice(SAMPLES),
+                          'mp': rng.choice([None, None, 'unique', 'unique', 'multi']),
+                          'da': rng.choice([None, 'a', 'b']) if keyed else None})
+        runs = []
+        base = {'b': b, 'min_mq': rng.choice([None, 0, 30, 50, 50]), 'dedup': rng.random() < 0.8,
+                'ignore_mp': rng.choice([False, False, True, None]), 'key_tags': keyed}
+        kmax = 6 if self.tier == 'quick' else 12
+        ks = list(range(1, kmax + 1)) + [rng.choice([50, 1000])]
+        for k in ks:
+            run = dict(base, k=k, mfs=(rng.choice([0, 1, 7, 1000]) if wild else rng.choice([dmax, dmax + 1, 2 * dmax + 5, 1000])))
+            mode = rng.choice(['pool', 'fake', 'fake', 'fake'])
+            if mode == 'pool':
+                run.update(threads=rng.randint(1, 4), sched=None)
+            else:
+                njobs = sum(-(-l // (b * k)) for l in lens)
+                order = list(range(njobs))
+                how = rng.choice(['rev', 'shuffle', 'shuffle', 'id'])
+                if how == 'rev':
+                    order.reverse()
+                elif how == 'shuffle':
+                    rng.shuffle(order)
+                run.update(threads=1, sched=order)
+            runs.append(run)
+        return {'contigs': contigs, 'reads': reads, 'runs': runs, 'wild': wild}
+
+    def gen_all(self):
+        quick = self.tier == 'quick'
+        rng = self.rng
+        libs = [self.gen_lib(wild=(i % 4 == 3)) for i in range(40 if quick else 400)]
+        # degenerate configurations (outside the precondition; model and code must still agree)
+        odd = self.gen_lib(wild=False)
+        odd['runs'] = [dict(odd['runs'][0], b=bb, k=kk, threads=1, sched=None)
+                       for bb, kk in ((0, 1), (1, 0), (-5, -1), (-5, 2), (7, -1))]
+        libs.append(odd)
+        jobs = []
+        for b in range(1, 9 if quick else 16):
+            for k in range(1, 6 if quick else 10):
+                for L in list(range(0, 3 * b * k + 3)) if b * k <= 12 else [b * k - 1, b * k, b * k + 1, 2 * b * k, 3 * b * k + 1]:
+                    jobs.append([[L], b, k])
+        for _ in range(200 if quick else 3000):
+            b = rng.choice([1, 3, 10, 1000, 10 ** 6, rng.randint(1, 10 ** 7)])
+            k = rng.choice([1, 2, 5, 10, rng.randint(1, 50)])
+            m = rng.randint(0, 40)
+            jobs.append([[rng.choice([m * b * k, m * b * k + 1, max(0, m * b * k - 1), rng.randint(0, 60 * b * k)])
+                          for _ in range(rng.randint(1, 3))], b, k])
+        jobs += [[[50], 0, 3], [[50], 3, 0], [[50], -3, 2], [[50], -3, -2], [[0], 5, 1], [[], 5, 1]]
+        filters = [list(t) for t in itertools.product([None, 30], [0, 1], [0, 1], [0, 1], [0, 1], [0, 1], [0, 1], [0, 1],
+                                                      [0, 1, 2], [29, 30])]
+        merges = []
+        for _ in range(150 if quick else 1500):
+            res = []
+            for _j in range(rng.randint(0, 4)):
+                d, seen = [], set()
+                for _e in range(rng.randint(0, 3)):
+                    q = (rng.randint(0, 1), rng.randint(1, 2), 10 * rng.randint(0, 2), 10 * rng.randint(1, 3))
+                    if q in seen:
+                        continue
+                    seen.add(q)
+                    ss = rng.sample([0, 1, 2, 3], rng.randint(1, 3))
+                    d.append([list(q), [[s, rng.randint(1, 9)] for s in ss]])
+                res.append(d)
+            merges.append(res)
+        regions = []
+        for _ in range(6 if quick else 40):
+            L = rng.choice([3000, 5000, 7000])
+            cut = rng.choice([1500, 2000, 2500])
+            sites = sorted(set([cut, cut - 1, cut + 1, 2, L - 3, max(2, cut - 1000), max(2, cut - 1001)] +
+                               [rng.randint(2, L - 3) for _ in range(12)]))
+            reads = []
+            for s in sites:
+                lo = s - rng.randint(0, 2)
+                reads.append([lo, lo + 3, s])
+            regions.append({'len': L, 'bin': rng.choice([100, 500, 1000]),
+                            'regions': rng.choice([None, [[0, cut], [cut, L]], [[cut, L]], [[0, cut]]]), 'reads': reads})
+        return {'libs': libs, 'jobs': jobs, 'filters': filters, 'merges': merges, 'regions': regions}
+
+    def load_corpus(self):
+        d = os.path.join(fw.VERIF, 'corpus', 'C12')
+        out = []
+        if os.path.isdir(d):
+            for f in sorted(os.listdir(d)):
+                if f.endswith('.json'):
+                    out.append(json.load(open(os.path.join(d, f))))
+        return out
+
+    def run_impl_all(self):
+        payload = self.gen_all()
+        payload['libs'] = self.load_corpus() + payload['libs']
+        # split the libraries over a few processes
+        from concurrent.futures import ThreadPoolExecutor
+        n = 4
+        parts = [dict(libs=payload['libs'][i::n]) for i in range(n)]
+        parts[0].update({k: payload[k] for k in ('jobs', 'filters', 'merges', 'regions')})
+        with ThreadPoolExecutor(n) as ex:
+            rs = list(ex.map(lambda p: fw.run_impl('impl_c12.py', p), parts))
+        res = dict(rs[0])
+        libs = [None] * len(payload['libs'])
+        for i in range(n):
+            libs[i::n] = rs[i]['libs']
+        res['libs'] = libs
+        self.payload, self.impl_res = payload, res
+        return payload, res
+
+    # ---------------------------------------------------------------- K
+    def correspondence(self):
+        payload, res = self.run_impl_all()
+        libs = payload['libs']
+        flat = []        # (lib, run, impl result)
+        for lib, lr in zip(libs, res['libs']):
+            if 'error' in lr:
+                raise fw.Broken('correspondence', 'harness could not write a BAM: %s' % lr['error'])
+            for run, rr in zip(lib['runs'], lr['runs']):
+                flat.append((lib, run, rr))
+        n_pre = sum(1 for lib, run, rr in flat if py_pre(lib, run))
+        nontrivial = set()
+        for lib, run, rr in flat:
+            if 'cells' in rr and len(rr['jobs']) >= 2 and sum(c[5] for c in rr['cells']) >= 2:
+                nontrivial.add(fw.canon_hash([enc_input(lib, run, len(rr['jobs'])), sorted(map(str, rr['cells']))]))
+        nt_jobs = set(fw.canon_hash(j) for j, rj in zip(payload['jobs'], res['jobs']) if len(rj.get('jobs', [])) >= 2)
+        nt_merges = set(fw.canon_hash(m) for m in payload['merges']
+                        if len(set(tuple(e[0]) for d in m for e in d)) < sum(len(d) for d in m))
+        on_boundary = sum(1 for lib, run, rr in flat for r in lib['reads']
+                          if run['b'] > 0 and run['k'] > 0 and py_site(r) % (run['b'] * run['k']) == 0)
+        self.cov.update({
+            'evaluations': len(flat) + len(payload['jobs']) + len(payload['filters']) + len(payload['merges']) + len(payload['regions']),
+            'distinct_nontrivial': len(nontrivial) + len(nt_jobs) + len(nt_merges),
+            'distinct_nontrivial_breakdown': {'pipeline': len(nontrivial), 'job_lists': len(nt_jobs), 'merges': len(nt_merges)},
+            'rule': 'pipeline runs: one synthetic BAM (1-3 contigs, 4-45 records, flags/tags/MAPQ varied, sites on job '
+                    'boundaries) through obtain_counts(generate_commands(..)) per (bins_per_job, max_fragment_size, schedule); '
+                    'non-trivial = at least 2 jobs and at least 2 counted records; distinct by hash of (model input, cells); job-list cases '
+                    'count when they have at least 2 jobs, merge cases when two job results share a bin id; filter cases are not counted. '
+                    'kernels: generate_commands job lists (exhaustive small + large lengths), read_counts (exhaustive over flags), '
+                    'obtain_counts merge on prepared colliding job results, get_binned_counts regions (D15)',
+            'pipeline_runs': len(flat), 'libraries': len(libs),
+            'precondition_hit_rate': round(n_pre / max(1, len(flat)), 4),
+            'schedules': {'real_pool': sum(1 for _, run, _ in flat if run.get('sched') is None),
+                          'prescribed_order': sum(1 for _, run, _ in flat if run.get('sched') is not None)},
+            'bins_per_job_hist': _hist(run['k'] for _, run, _ in flat),
+            'threads_hist': _hist(run['threads'] for _, run, _ in flat if run.get('sched') is None),
+            'jobs_per_run_hist': _hist(min(len(rr.get('jobs', [])), 20) for _, _, rr in flat),
+            'record_sites_on_job_boundary': on_boundary,
+            'job_kernel_cases': len(payload['jobs']), 'filter_kernel_cases': len(payload['filters']),
+            'merge_kernel_cases': len(payload['merges']), 'region_cases': len(payload['regions']),
+            'samples': [{'run': {k: v for k, v in flat[i][1].items() if k != 'sched'}, 'contigs': flat[i][0]['contigs'],
+                         'n_reads': len(flat[i][0]['reads']), 'impl_cells': flat[i][2].get('cells', flat[i][2])[:6]}
+                        for i in (0, len(flat) // 2, len(flat) - 8)],
+            'exhaustive': False,
+            'exhaustive_scopes': 'read_counts: all 2^8 x 3 x 2 flag/option combinations; job lists: all lengths 0..3*b*k+2 for b*k <= 12',
+        })
+        if not self.model_ok:
+            return
+        dis = []
+        # pipeline
+        ins = [enc_input(lib, run, len(rr.get('jobs', []))) for lib, run, rr in flat]
+        mo = fw.run_model('C12', 0, ins)
+        mpre = fw.run_model('C12', 1, [i[:2] for i in ins])
+        mdecl = fw.run_model('C12', 2, [i[:2] for i in ins])
+        spec_checked = 0
+        for (lib, run, rr), inp, m, mp_, md in zip(flat, ins, mo, mpre, mdecl):
+            tag = {'fn': 'obtain_counts(generate_commands)', 'lib': {k: lib[k] for k in ('contigs', 'reads')}, 'run': run}
+            if (mp_ == 1) != py_pre(lib, run):
+                dis.append(dict(tag, what='python precondition differs from Coq [pre]', model=mp_))
+            if m[0] != 0:
+                if 'error' not in rr or not rr['error'].startswith('ValueError'):
+                    dis.append(dict(tag, model='Raise %d' % m[0], impl=rr))
+                continue
+            if 'error' in rr:
+                dis.append(dict(tag, model='Ok', impl=rr))
+                continue
+            got = canon_cells(lib, run, rr['cells'])
+            exp = {tuple(c[:5]): c[5] for c in m[1]}
+            if got is None or got != exp or len(exp) != len(m[1]):
+                dis.append(dict(tag, model=sorted(exp.items()), impl=sorted((got or {}).items())))
+            # the python oracle used by search() is the Coq [decl] (theorem statement) - tie them
+            dd = {tuple(c[:5]): c[5] for c in md[0]}
+            ps = py_spec(lib, run)
+            if run['b'] > 0 and (dd != ps or md[1] != sum(ps.values())):
+                dis.append(dict(tag, what='python oracle differs from Coq [decl]', model=sorted(dd.items()), oracle=sorted(ps.items())))
+            if mp_ == 1:
+                spec_checked += 1
+                if exp != dd:
+                    dis.append(dict(tag, what='model output differs from [decl] although [pre] holds (theorem C12_matrix!)'))
+        # kernels
+        mj = fw.run_model('C12', 3, [[L, b, k] for lens, b, k in payload['jobs'] for L in lens])
+        it = iter(mj)
+        for (lens, b, k), rj in zip(payload['jobs'], res['jobs']):
+            exp = [[ci, lo, hi] for ci, L in enumerate(lens) for lo, hi in next(it)]
+            if b * k == 0 and lens:
+                if 'error' not in rj or not rj['error'].startswith('ValueError'):
+                    dis.append({'fn': 'generate_commands', 'input': [lens, b, k], 'model': 'ValueError', 'impl': rj})
+            elif rj.get('jobs') != exp or not rj.get('passthrough'):
+                dis.append({'fn': 'generate_commands', 'input': [lens, b, k], 'model': exp[:6], 'impl': rj if 'error' in rj else rj['jobs'][:6]})
+        fin = [[0 if f[0] is None else 1, f[0] or 0] + f[1:] for f in payload['filters']]
+        mf = fw.run_model('C12', 4, fin)
+        for f, m, r in zip(payload['filters'], mf, res['filters']):
+            if r != bool(m):
+                dis.append({'fn': 'read_counts', 'input': f, 'model': m, 'impl': r})
+        mm = fw.run_model('C12', 5, payload['merges'])
+        for inp, m, r in zip(payload['merges'], mm, res['merges']):
+            if r != m:
+                dis.append({'fn': 'obtain_counts(merge)', 'input': inp, 'model': m, 'impl': r})
+        mr = fw.run_model('C12', 6, [[1000, g['bin'], g['regions'], g['reads']] for g in payload['regions'] if g['regions'] is not None])
+        it = iter(mr)
+        for g, r in zip(payload['regions'], res['regions']):
+            if g['regions'] is None:
+                exp = sorted(_hist((r[2] // g['bin']) * g['bin'] for r in g['reads']).items())
+                exp = [[int(a), b] for a, b in exp]
+            else:
+                exp = sorted(next(it))
+            if r.get('cells') != exp:
+                dis.append({'fn': 'get_binned_counts', 'input': g, 'model': exp, 'impl': r})
+        self.cov['traces_validated_against_impl'] = self.cov['evaluations']
+        self.cov['theorem_instances_checked_on_model'] = spec_checked
+        self.cov['disagreements'] = len(dis)
+        idx = sorted(self.rng.sample(range(len(ins)), min(100, len(ins))))
+        ok, nm, log = fw.vm_crosscheck('C12', 0, [(ins[i], mo[i]) for i in idx])
+        self.cov['vm_compute_crosscheck'] = {'cases': len(idx), 'mismatches': nm}
+        if not ok:
+            raise fw.Broken('extraction', 'vm_compute and extracted model disagree: ' + log[-800:])
+        if dis:
+            self.dis = dis
+            raise fw.Broken('correspondence', 'model and implementation disagree on %d cases; first: %s'
+                            % (len(dis), json.dumps(dis[0], default=str)[:1500]))
+
+
+def _hist(it):
+    h = {}
+    for x in it:
+        h[x] = h.get(x, 0) + 1
+    return dict(sorted(h.items(), key=lambda kv: str(kv[0])))
+
+
+# ----------------------------------------------------------------------------- search / findings
+def _tile_spec(lens, b, k):
+    w = b * k
+    return [[ci, i * w, (i + 1) * w] for ci, L in enumerate(lens) for i in range(-(-L // w))]
+
+
+def _filter_spec(f):
+    min_mq, dedup, r1only, ign_mp, ign_qc, is_r1, is_qc, is_dup, mp, mq = f
+    return not ((r1only and not is_r1) or (is_qc and not ign_qc) or (dedup and is_dup) or
+                (not ign_mp and mp == 2) or (min_mq is not None and mq < min_mq))
+
+
+def _region_union_spec(g):
+    """each record whose site lies in the union of the half-open user regions is counted once"""
+    h = {}
+    for lo, hi, s in g['reads']:
+        if g['regions'] is None or any(a <= s < b for a, b in g['regions']):
+            bs = (s // g['bin']) * g['bin']
+            h[bs] = h.get(bs, 0) + 1
+    return sorted([a, n] for a, n in h.items())
+
+
+def _region_defect_model(g, fs=1000):
+    """python transcription of the D15 behaviour (widened start reused as ownership bound, inclusive stop)"""
+    h = {}
+    for a, b in g['regions']:
+        st = max(0, a - fs)
+        for lo, hi, s in g['reads']:
+            if lo < b and st < hi and not (s < st or s > b):
+                bs = (s // g['bin']) * g['bin']
+                h[bs] = h.get(bs, 0) + 1
+    return sorted([a, n] for a, n in h.items())
+
+
+D15_WITNESS = {'len': 5000, 'bin': 100, 'regions': [[0, 2000], [2000, 4000]], 'reads': [[1500, 1503, 1500]]}
+FAR_LIB = {'contigs': [['chr1', 1000]], 'reads': [{'c': 0, 'pos': 500, 'len': 10, 'flag': 65, 'mq': 60, 'sm': 'c1', 'ds': 100}]}
+BEYOND_LIB = {'contigs': [['chr1', 95]], 'reads': [{'c': 0, 'pos': 85, 'len': 10, 'flag': 65, 'mq': 60, 'sm': 'c1', 'ds': 105}]}
+NEG_LIB = {'contigs': [['chr1', 95]], 'reads': [{'c': 0, 'pos': 0, 'len': 10, 'flag': 65, 'mq': 60, 'sm': 'c1', 'ds': -2}]}
+
+
+def _run(b, k, mfs):
+    return {'b': b, 'k': k, 'mfs': mfs, 'threads': 1, 'min_mq': 50, 'dedup': True, 'ignore_mp': False,
+            'key_tags': False, 'sched': None}
+
+
+def _search(self):
+    """the SPECIFICATION (python transcription of [decl] / C12_jobs_tile / C12_filter_spec; tied to the Coq
+    definitions by the correspondence run when the model builds) evaluated on the implementation's outputs"""
+    if getattr(self, 'impl_res', None) is None:
+        self.run_impl_all()
+    payload, res = self.payload, self.impl_res
+    # 1. the matrix
+    bad = []
+    for lib, lr in zip(payload['libs'], res['libs']):
+        for run, rr in zip(lib['runs'], lr.get('runs', [])):
+            if not py_pre(lib, run):
+                continue
+            exp = py_spec(lib, run)
+            got = canon_cells(lib, run, rr['cells']) if 'cells' in rr else None
+            if got != exp:
+                bad.append((len(lib['reads']) + len(rr.get('jobs', [])), lib, run, rr))
+    if bad:
+        bad.sort(key=lambda t: t[0])
+        _, lib, run, rr = bad[0]
+        lib, run, rr = self.shrink(lib, run, rr)
+        exp = py_spec(lib, run)
+        got = canon_cells(lib, run, rr['cells']) if 'cells' in rr else None
+        diff = sorted(set((got or {}).items()) ^ set(exp.items()))[:6]
+        self.witnesses.append({
+            'key': 'matrix:%s' % ('error' if 'error' in rr else 'cells'),
+            'what': 'obtain_counts(generate_commands(bin_size=%d, bins_per_job=%d, max_fragment_size=%d)) on %d records: %s'
+                    % (run['b'], run['k'], run['mfs'], len(lib['reads']),
+                       rr.get('error') or 'cells (key, contig, bin_start, bin_end, sample) -> n differ from the count of passing records: %r' % (diff,)),
+            'input': {'contigs': lib['contigs'], 'reads': lib['reads'], 'run': run},
+            'impl': rr.get('error') or sorted((got or {}).items()), 'expected': sorted(exp.items())})
+    # 2. job lists
+    best = None
+    for (lens, b, k), rj in zip(payload['jobs'], res['jobs']):
+        if b > 0 and k > 0:
+            exp = _tile_spec(lens, b, k)
+            if rj.get('jobs') != exp or not rj.get('passthrough'):
+                size = sum(lens) + b + k
+                if best is None or size < best[0]:
+                    best = (size, {'key': 'jobs', 'what': 'generate_commands(contig lengths %r, bin_size=%d, bins_per_job=%d) does not tile the '
+                                                           'contigs in steps of bin_size*bins_per_job' % (lens, b, k),
+                                   'input': [lens, b, k], 'impl': rj.get('error') or rj['jobs'][:8], 'expected': exp[:8]})
+    if best:
+        self.witnesses.append(best[1])
+    # 3. the filter
+    for f, r in zip(payload['filters'], res['filters']):
+        if r != _filter_spec(f):
+            self.witnesses.append({'key': 'filter', 'what': 'read_counts(min_mq=%r, dedup=%r, read1_only=%r, ignore_mp=%r, ignore_qcfail=%r) on a record '
+                                                           'with is_read1=%r is_qcfail=%r is_duplicate=%r mp=%s mapq=%r returns %r'
+                                                           % (f[0], bool(f[1]), bool(f[2]), bool(f[3]), bool(f[4]), bool(f[5]), bool(f[6]), bool(f[7]),
+                                                              {0: 'absent', 1: 'unique', 2: 'multi'}[f[8]], f[9], r),
+                                   'input': f, 'impl': r, 'expected': _filter_spec(f)})
+            break
+    # 4. the region counter
+    for g, r in zip(payload['regions'], res['regions']):
+        exp = _region_union_spec(g)
+        if r.get('cells') != exp:
+            if g['regions'] is not None and r.get('cells') == _region_defect_model(g):
+                key = 'D15-region-edge'
+            else:
+                key = 'regions-other'
+            self.witnesses.append({'key': key, 'what': 'get_binned_counts(bin_size=%d, regions=%r): counts differ from one count per record '
+                                                       'whose site lies in the regions' % (g['bin'], g['regions']),
+                                   'input': g, 'impl': r, 'expected': exp})
+            if key != 'D15-region-edge':
+                break
+
+
+def _shrink(self, lib, run, rr):
+    """greedy removal of records (one implementation process per round)"""
+    def fails(l, r_):
+        if not py_pre(l, run):
+            return False
+        got = canon_cells(l, run, r_['cells']) if 'cells' in r_ else None
+        return got != py_spec(l, run)
+    run = dict(run)
+    if run.get('sched') is not None:
+        run2 = dict(run, sched=None)
+        out = fw.run_impl('impl_c12.py', {'libs': [dict(lib, runs=[run2])]})['libs'][0]['runs'][0]
+        if fails(lib, out):
+            run, rr = run2, out
+    for _ in range(8):
+        if len(lib['reads']) <= 1 or run.get('sched') is not None:
+            break
+        cands = [dict(lib, reads=lib['reads'][:i] + lib['reads'][i + 1:], runs=[run]) for i in range(len(lib['reads']))]
+        # also try halves first
+        h = len(lib['reads']) // 2
+        cands = [dict(lib, reads=lib['reads'][:h], runs=[run]), dict(lib, reads=lib['reads'][h:], runs=[run])] + cands
+        outs = fw.run_impl('impl_c12.py', {'libs': cands})['libs']
+        for cnd, o in zip(cands, outs):
+            if 'runs' in o and fails(cnd, o['runs'][0]):
+                lib, rr = cnd, o['runs'][0]
+                break
+        else:
+            break
+    return {k: v for k, v in lib.items() if k != 'runs'}, run, rr
+
+
+def _replay_known(self, finding):
+    key = finding.get('key')
+    if key == 'D15-region-edge':
+        r = fw.run_impl('impl_c12.py', {'regions': [D15_WITNESS]})['regions'][0]
+        return r.get('cells') == [[1500, 2]]
+    probes = {'H2-far-site': (FAR_LIB, _run(10, 1, 5), _run(10, 100, 5)),
+              'H1-site-beyond-contig': (BEYOND_LIB, _run(10, 1, 1000), _run(10, 3, 1000)),
+              'H1-negative-site': (NEG_LIB, _run(10, 1, 1000), _run(10, 10, 1000))}
+    if key in probes:
+        lib, r1, r2 = probes[key]
+        out = fw.run_impl('impl_c12.py', {'libs': [dict(lib, runs=[r1, r2])]})['libs'][0]['runs']
+        t1, t2 = [sum(c[5] for c in o.get('cells', [])) for o in out]
+        return (t1, t2) == ((0, 0) if key == 'H1-negative-site' else (0, 1))
+    return False
+
+
+Prop.search = _search
+Prop.shrink = _shrink
+Prop.replay_known = _replay_known
